@@ -1132,7 +1132,7 @@ class Emitter:
                    'sgt': '>', 'sge': '>='}[pred]
             if pred in ('eq', 'ne'):
                 return '((void*)%s %s (void*)%s)' % (a, cop, b)
-            return '((char*)%s %s (char*)%s)' % (a, cop, b)
+            return 'IR2C_PTRCMP(%s, %s, %s)' % (a, cop, b)
         if pred in ('eq', 'ne'):
             return '(%s %s %s)' % (a, '==' if pred == 'eq' else '!=', b)
         cop = {'lt': '<', 'le': '<=', 'gt': '>', 'ge': '>='}[pred[1:]]
@@ -1337,6 +1337,11 @@ class FnTranslator:
                 except Exception as e:
                     raise RuntimeError('in %s: cannot parse %r: %s' % (f.name, s[:200], e))
             parsed.append((lbl, pi))
+        self.defs = {}
+        for lbl, pi in parsed:
+            for i_ in pi:
+                if i_.get('dest') is not None:
+                    self.defs[i_['dest']] = i_
         # collect phis per block
         for lbl, pi in parsed:
             ph = [i for i in pi if i['op'] == 'phi']
@@ -1662,6 +1667,14 @@ class FnTranslator:
             terms.append('(int64_t)%dLL' % c)
         return '((uint64_t)(%s))' % ' + '.join(terms)
 
+    def fp_lit(self, v):
+        if v.k == 'fp':
+            return float(v.a)
+        if v.k == 'fphex' and not v.a.startswith('0xK'):
+            import struct as _s
+            return _s.unpack('<d', _s.pack('<Q', int(v.a, 16)))[0]
+        return None
+
     # ---- emission
     def chk_mem(self, ty):
         if ty.k == 'int' and ty.w not in (1, 8, 16, 32, 64, 128):
@@ -1709,6 +1722,43 @@ class FnTranslator:
                 if e is not None:
                     self.setl(d, ins['ty'], e)
                     return
+            if em.fp_uf and ins['ty'].k == 'double' and op in ('fadd', 'fsub', 'fmul', 'fdiv'):
+                # literal-constant identities decided at translation time (no case split reaches the solver):
+                # x+0 = x, x-0 = x, 0+x = x (signed zeros identified); x*1 = x, 1*x = x, x/1 = x (exact)
+                ka, kb = self.fp_lit(ins['a']), self.fp_lit(ins['b'])
+                keep = None
+                if op == 'fadd' and kb == 0.0:
+                    keep = ins['a']
+                elif op == 'fadd' and ka == 0.0:
+                    keep = ins['b']
+                elif op == 'fsub' and kb == 0.0:
+                    keep = ins['a']
+                elif op == 'fmul' and kb == 1.0:
+                    keep = ins['a']
+                elif op == 'fmul' and ka == 1.0:
+                    keep = ins['b']
+                elif op == 'fdiv' and kb == 1.0:
+                    keep = ins['a']
+                if keep is not None:
+                    self.setl(d, ins['ty'], em.cexpr(keep))
+                    return
+                # x + select(c, +-0.0, v)  ==>  c ? x : x + v   (clang's if-conversion of a guarded accumulation)
+                if op in ('fadd', 'fsub'):
+                    for side in (('b', 'a'),) + ((('a', 'b'),) if op == 'fadd' else ()):
+                        sv, ov = ins[side[0]], ins[side[1]]
+                        sd = self.defs.get(sv.a) if sv.k == 'local' else None
+                        if sd is not None and sd['op'] == 'select':
+                            za, zb = self.fp_lit(sd['a']), self.fp_lit(sd['b'])
+                            if za == 0.0 or zb == 0.0:
+                                c = em.cexpr(sd['c'])
+                                o = em.cexpr(ov)
+                                def app(v):
+                                    x, y = (o, em.cexpr(v)) if side[0] == 'b' else (em.cexpr(v), o)
+                                    return em.bin_expr(op, ins['ty'], x, y, ins['flags'])
+                                ea = o if za == 0.0 else app(sd['a'])
+                                eb = o if zb == 0.0 else app(sd['b'])
+                                self.setl(d, ins['ty'], '(%s ? %s : %s)' % (c, ea, eb))
+                                return
             self.setl(d, ins['ty'], em.bin_expr(op, ins['ty'], em.cexpr(ins['a']), em.cexpr(ins['b']), ins['flags']))
         elif op == 'fneg':
             if em.fp_uf and ins['ty'].k == 'double':
